@@ -233,3 +233,24 @@ def _string_roundtrips_native(B):
         if type(q) is not D.IntegerPeriod or q.serial != serial or eval(repr(p), {"ii": D.ii}).serial != serial:
             B.fail("integer sdmx/repr round trip", {"serial": serial})
             return
+
+
+# ------------------------------------------------------------------------------ the generic constructors dispatch to the class of the frequency
+@contract("C11", targets=[P + "Period.from_year_segment", P + "Period.from_ymd"], instances=[(c,) for c in ALL])
+def generic_constructors_agree_with_the_class_constructors(K, cls):
+    """Period.from_year_segment(freq, year, segment) / Period.from_ymd(freq, y, m, d) create the period of THAT frequency
+    that the (year, segment) / the calendar day denotes: the round trip through the period's own accessors is the identity."""
+    p = cal_period(K, cls)
+    if cls is D.IntegerPeriod:
+        # integer periods have no (year, segment) accessor: the generic constructor must be the class constructor
+        y, s = K.int("year", -500, 500), K.int("segment", -500, 500)
+        a, b = K.call(D.Period.from_year_segment, FREQ[cls], y, s), K.call(cls.from_year_segment, y, s)
+        K.ensure("generic from_year_segment == IntegerPeriod.from_year_segment", same(K, a, cls, b))
+        return
+    y, s = K.method(p, "to_year_segment")
+    back = K.call(D.Period.from_year_segment, FREQ[cls], y, s)
+    K.ensure("from_year_segment(freq, *p.to_year_segment()) == p", same(K, back, cls, p))
+    if cls in CAL:
+        yy, mm, dd = K.method(p, "to_ymd", position="start")
+        back2 = K.call(D.Period.from_ymd, FREQ[cls], yy, mm, dd)
+        K.ensure("from_ymd(freq, *p.to_ymd()) == p", same(K, back2, cls, p))
